@@ -57,17 +57,21 @@ def ctx_samples(samples):
     return [[{"seq": b(r["seq"]), "off": r["off"], "rev": r["rev"]} for r in recs] for recs in samples]
 
 
-def snp_events(run, tier, seed, tag):
+def snp_events(run, tier, seed, tag, ks=None, n=None):
+    """ks / n given: only the planted-SNP stratum, at those k (used by C09 for the 128-bit widths)."""
     rng = random.Random(seed)
-    n = 24 if tier == "quick" else 300
+    only_planted = ks is not None
+    ks = ks or [7, 9, 11, 13, 15, 17, 21, 25, 29, 31, 33, 35, 41, 63]
+    n = n or (26 if tier == "quick" else 300)
     sb = skacli.Sandbox(tag)
     events = []
     try:
         for ci in range(n):
-            k = rng.choice([7, 9, 11, 13, 15, 17, 21, 25, 29, 31, 33])
+            k = rng.choice(ks)
             refmode = k >= 15 and ci % 2 == 0
             ns = rng.randint(3, 10)
-            length = rng.randint(max(120, 8 * k), 500 if tier == "quick" else 1500) if k >= 9 else rng.randint(60, 110)
+            lo_len = max(120, 8 * k)
+            length = rng.randint(lo_len, max(lo_len + 40, 500 if tier == "quick" else 1500)) if k >= 9 else rng.randint(60, 110)
             sc = derive.lo_snp_scenario(rng, k, ns, length, rng.randint(1, 10))
             if sc is None:
                 continue
@@ -99,7 +103,7 @@ def snp_events(run, tier, seed, tag):
             if sc["pre_strict"]:
                 run.nontriv([sc["ancestor"], sc["sites"], sc["alleles"], k, refmode])
         # arbitrary inputs (close SNPs, indels, repeats): only well-formedness is required
-        for ci in range(8 if tier == "quick" else 80):
+        for ci in range(0 if only_planted else (8 if tier == "quick" else 80)):
             k = rng.choice([7, 11, 15, 21, 31])
             ns = rng.randint(3, 8)
             samples = gen.related_samples(rng, k, ns, length=rng.randint(6 * k, 400), snp_rate=0.03)
@@ -122,7 +126,7 @@ def snp_events(run, tier, seed, tag):
         # mixed samples: isolated SNPs, but some samples also carry a second copy of the region around a site with
         # another allele (a duplicated region, a contaminated assembly): they are ambiguous ('N') at that site, and
         # the column is allowed only if the ambiguous + absent samples stay within -m. Well-formedness only.
-        for ci in range(10 if tier == "quick" else 100):
+        for ci in range(0 if only_planted else (10 if tier == "quick" else 100)):
             k = rng.choice([11, 15, 21, 31])
             ns = rng.randint(4, 10)
             sc = derive.lo_snp_scenario(rng, k, ns, rng.randint(8 * k, 500), rng.randint(1, 4))
